@@ -140,6 +140,8 @@ func c14OutKind(q *c14Req) (kind string, n int, fits bool) {
 		return "", 0, true
 	case q.out == "FL":
 		return "FL", 0, true
+	case strings.HasPrefix(q.out, "P"):
+		return "P", 0, true
 	case strings.HasPrefix(q.out, "W"):
 		k, _ := strconv.Atoi(q.out[1:])
 		return "W", k, true
@@ -154,6 +156,13 @@ func c14OutKind(q *c14Req) (kind string, n int, fits bool) {
 func c14ValidOut(s string) bool {
 	if s == "-" || s == "FL" {
 		return true
+	}
+	if s == "Ph" || s == "Pb" || s == "Pa" || s == "Pr" {
+		return true
+	}
+	if strings.HasPrefix(s, "Pw") {
+		_, err := strconv.Atoi(s[2:])
+		return err == nil
 	}
 	if strings.HasPrefix(s, "W") {
 		_, err := strconv.Atoi(s[1:])
@@ -179,6 +188,27 @@ func c14GenOut(r *Rng, proto, mode string, q *c14Req, first bool) string {
 		return "out:none"
 	}
 	_, known := c14Known[q.method]
+	if (mode == "fault" || mode == "hsrv") && known && strings.HasPrefix(q.args, "ok") && r.Chance(30) {
+		// a PANIC where user-supplied code runs inside the request path
+		pos := r.PickS("h", "b", "a", "r", "w", "w", "w")
+		switch {
+		case pos == "r" && (q.method == "ping" || q.method == "fire"):
+			q.args = "okp"
+		case pos == "w" && q.method == "ping":
+			pos = "w" + strconv.Itoa(r.Intn(4))
+			q.outcome = "s:" + hx([]byte("unserialisable"))
+			h["x-out"] = q.outcome
+		case pos == "r" || pos == "w":
+			pos = "h"
+		}
+		h["x-panic"] = pos
+		q.hdrBlock = frugal.VerifMarshalHeaders(h)
+		q.out = "P" + pos
+		return "out:panic-" + pos[:1]
+	}
+	if mode == "hsrv" {
+		return "out:healthy"
+	}
 	big := r.Pick(0, 0, 40, 300, 5000, 20000)
 	where := "none"
 	pick := r.Intn(4)
